@@ -44,8 +44,9 @@ struct Sentinel
 struct Svc
 {
   virtual ~Svc() {}
-  virtual uint64_t schedule(uint64_t delayMs, std::function<void()> fn) = 0;
+  virtual uint64_t schedule(uint64_t delayUs, std::function<void()> fn) = 0;   // microseconds
   virtual uint64_t schedulePeriodic(uint64_t, std::function<void()>) { return 0; }
+  virtual bool subMillisecond() { return false; } // accepts delays/intervals with a sub-millisecond fraction
   virtual bool cancel(uint64_t id) = 0;
   virtual int reschedule(uint64_t, uint64_t) { return -1; } // -1 unsupported
   virtual void drain() = 0;
@@ -67,7 +68,7 @@ struct WheelSvc : Svc
   WheelSvc(int tickMs, size_t tpw, size_t levels)
     : w(std::chrono::milliseconds(tickMs), tpw, levels), tick(uint64_t(tickMs) * 1000000ull),
       nm("wheel" + std::to_string(levels)) { w.start(); }
-  uint64_t schedule(uint64_t d, std::function<void()> fn) override { return w.schedule(std::chrono::milliseconds(d), std::move(fn)); }
+  uint64_t schedule(uint64_t us, std::function<void()> fn) override { return w.schedule(std::chrono::milliseconds(us / 1000), std::move(fn)); }
   bool cancel(uint64_t id) override { return w.cancel(id); }
   int reschedule(uint64_t id, uint64_t d) override { return w.reschedule(id, std::chrono::milliseconds(d)) ? 1 : 0; }
   void drain() override { w.drain(std::chrono::milliseconds(20000)); }
@@ -95,8 +96,9 @@ struct TsSvc : Svc
 {
   std::unique_ptr<TimerService> s;
   TsSvc() { TimerServiceConfig c; s.reset(new TimerService(c, std::make_shared<NullLogger>())); s->setErrorHandler([](TimerError, const std::string &, int) {}); }
-  uint64_t schedule(uint64_t d, std::function<void()> fn) override { return s->scheduleAfter(std::chrono::milliseconds(d), std::move(fn)); }
-  uint64_t schedulePeriodic(uint64_t d, std::function<void()> fn) override { return s->schedulePeriodic(std::chrono::milliseconds(d), std::move(fn)); }
+  uint64_t schedule(uint64_t us, std::function<void()> fn) override { return s->scheduleAfter(std::chrono::microseconds(us), std::move(fn)); }
+  uint64_t schedulePeriodic(uint64_t us, std::function<void()> fn) override { return s->schedulePeriodic(std::chrono::microseconds(us), std::move(fn)); }
+  bool subMillisecond() override { return true; }
   bool cancel(uint64_t id) override { return s->cancel(id); }
   void drain() override { s->drain(20000); }
   void stop() override { s->stop(); }
@@ -124,8 +126,9 @@ struct PoolSvc : Svc
   uint64_t next = 1;
   PoolSvc(size_t n) { TimerServiceConfig c; p.reset(new TimerServicePool(n, c, std::make_shared<NullLogger>())); }
   uint64_t reg(TimerService *s, uint64_t id) { if (!id) return 0; std::lock_guard<std::mutex> g(m); ids[next] = {s, id}; return next++; }
-  uint64_t schedule(uint64_t d, std::function<void()> fn) override { auto &s = p->getService(); return reg(&s, s.scheduleAfter(std::chrono::milliseconds(d), std::move(fn))); }
-  uint64_t schedulePeriodic(uint64_t d, std::function<void()> fn) override { auto &s = p->getLeastLoadedService(); return reg(&s, s.schedulePeriodic(std::chrono::milliseconds(d), std::move(fn))); }
+  uint64_t schedule(uint64_t us, std::function<void()> fn) override { auto &s = p->getService(); return reg(&s, s.scheduleAfter(std::chrono::microseconds(us), std::move(fn))); }
+  uint64_t schedulePeriodic(uint64_t us, std::function<void()> fn) override { auto &s = p->getLeastLoadedService(); return reg(&s, s.schedulePeriodic(std::chrono::microseconds(us), std::move(fn))); }
+  bool subMillisecond() override { return true; }
   bool cancel(uint64_t id) override
   {
     std::pair<TimerService *, uint64_t> e;
@@ -149,7 +152,7 @@ struct Scn
   std::atomic<bool> shutdownBegan{false};
   std::atomic<int> inHandlers{0};
   uint64_t seed = 0;
-  std::atomic<uint64_t> lateScheduleAttempts{0}, lateScheduleRefused{0};
+  std::atomic<uint64_t> lateScheduleAttempts{0}, lateScheduleRefused{0}, subMsTimers{0};
 };
 
 static Rec *newRec(Scn *S)
@@ -199,11 +202,15 @@ static std::function<void()> makeHandler(Scn *S, Rec *r, uint64_t salt)
 
 static void doSchedule(Scn *S, Rec *r, uint64_t delayMs, bool periodic, int behaviour, uint64_t salt)
 {
-  r->delayNs = delayMs * 1000000ull; r->periodic = periodic; r->intervalNs = r->delayNs; r->behaviour = behaviour;
+  // services that take a full-resolution duration get a sub-millisecond fraction half of the time
+  // (a period of e.g. 2750 us must not be rounded down to 2 ms when the timer is re-armed)
+  uint64_t delayUs = delayMs * 1000 + ((S->svc->subMillisecond() && (salt >> 17) % 2) ? (salt >> 23) % 1000 : 0);
+  if (delayUs % 1000) S->subMsTimers++;
+  r->delayNs = delayUs * 1000ull; r->periodic = periodic; r->intervalNs = r->delayNs; r->behaviour = behaviour;
   auto fn = makeHandler(S, r, salt);
   bool late = S->shutdownRetNs.load() != 0;
   r->callNs.store(vf::nowNs());
-  uint64_t id = periodic ? S->svc->schedulePeriodic(delayMs, std::move(fn)) : S->svc->schedule(delayMs, std::move(fn));
+  uint64_t id = periodic ? S->svc->schedulePeriodic(delayUs, std::move(fn)) : S->svc->schedule(delayUs, std::move(fn));
   r->retNs.store(vf::nowNs());
   r->id.store(id);
   if (late) { S->lateScheduleAttempts++; if (!id) S->lateScheduleRefused++; }
@@ -498,6 +505,7 @@ static bool runScenario(uint64_t seed, uint64_t idx, int which)
     O.viol("C08:" + N + ":accepted-after-shutdown", "schedule on a stopped service returned a valid id", det(nullptr, "\"attempts\":" + std::to_string(S->lateScheduleAttempts.load())));
   (void)quiescentNs; (void)endNs;
 
+  O.obs("timers_with_sub_millisecond_delay", S->subMsTimers.load());
   O.obs("scenarios_" + N); O.obs("timers_valid", nValid); O.obs("timers_fired", nFired); O.obs("cancel_true", nCancelTrue); O.obs("cancel_false", nCancelFalse);
   O.obs("cancel_lost_race_to_fire", cancelLostRace); O.obs("reschedule_true", nReschedTrue); O.obs("periodic_timers", nPeriodic);
   O.obs("discarded_by_shutdown", nDiscarded); O.obs("refused_after_shutdown", nRefused); O.obs("late_schedule_refused", S->lateScheduleRefused.load());
